@@ -69,13 +69,23 @@ def find_contracts(text):
         # header = text between previous ';' / '}' / preprocessor line / comment end and m.start()
         hs = m.start()
         k = hs
-        # walk back over whitespace/comments to the ')' closing the parameter list
+        # walk back over whitespace/comments/markers to the ')' closing the parameter list
         j = k - 1
         while True:
             while j >= 0 and text[j] in ' \t\r\n':
                 j -= 1
             if j >= 1 and text[j - 1:j + 1] == '*/':
                 j = text.rfind('/*', 0, j) - 1
+                continue
+            if j >= 0 and text[j] == ')':
+                mp = re.search(r'PROP\s*\([^()]*\)$', text[:j + 1])
+                if mp:
+                    j = mp.start() - 1
+                    continue
+            # a '# 12 "file"' line marker between the header and the first clause
+            ls = text.rfind('\n', 0, j + 1) + 1
+            if text[ls:ls + 1] == '#':
+                j = ls - 1
                 continue
             break
         if j < 0 or text[j] != ')':
@@ -119,6 +129,15 @@ def find_contracts(text):
                     e = text.index('\n', k)
                     tagtxt = text[k + 2:e]
                     k = e
+                    continue
+                mp = re.match(r'PROP\s*\(([^)]*)\)', text[k:])
+                if mp:
+                    tagtxt = mp.group(1)
+                    k += mp.end()
+                    continue
+                if text[k:k + 1] == '#':          # preprocessor line marker
+                    e = text.find('\n', k)
+                    k = e if e >= 0 else len(text)
                     continue
                 break
             m2 = CL.match(text, k)
@@ -180,6 +199,16 @@ def sub_fresh(e, mode):
     """IS_FRESH(p, n) -> MODEB_FRESH_ASSUME / MODEB_FRESH_ASSERT"""
     return re.sub(r'\bIS_FRESH\s*\(', 'MODEB_FRESH_%s(' % mode, e)
 
+def sub_ptreq(e):
+    """PTR_EQ(a, b) in an asserted position -> ((a) == (b))"""
+    while True:
+        m = re.search(r'\bPTR_EQ\s*\(', e)
+        if not m:
+            return e
+        q = match_paren(e, m.end() - 1)
+        a = split_top(e[m.end():q])
+        e = e[:m.start()] + '((%s) == (%s))' % (a[0], a[1]) + e[q + 1:]
+
 def cstr(s):
     s = re.sub(r'\s+', ' ', s)
     return s.replace('\\', '\\\\').replace('"', '\\"')
@@ -230,6 +259,8 @@ def assume_stmts(e):
         elif len(split_top_op(cj, '==>')) == 2 or (len(split_top_op(cj, '&&')) > 1):
             out.extend(assume_stmts(cj))
         else:
+            if 'PTR_EQ' in cj:
+                raise SystemExit('c2h: PTR_EQ must be a top-level conjunct of an assumed clause: ' + cj[:200])
             out.append('__CPROVER_assume(%s);' % cj)
     return out
 
@@ -242,7 +273,7 @@ def gen_stub(c, table):
     for i, (_, e, tags, line, _) in enumerate(req, 1):
         cid = '%s.requires.%d' % (name, i)
         table.append(dict(id=cid, kind='callee-requires', function=name, tags=tags, text=e, line=line))
-        L.append('  __CPROVER_assert(%s, "%s: %s");' % (sub_fresh(e, 'ASSERT'), cid, cstr(e)))
+        L.append('  __CPROVER_assert(%s, "%s: %s");' % (sub_ptreq(sub_fresh(e, 'ASSERT')), cid, cstr(e)[:300]))
     ol = olds([e for _, e, _, _, _ in ens])
     ot = {}
     for i, a in enumerate(ol):
@@ -284,6 +315,8 @@ def gen_stub(c, table):
     L.append('}')
     return '\n'.join(L)
 
+KNOWN = []
+
 def gen_harness(c, table):
     ret, name, params = c['ret'], c['name'], c['params']
     req = [x for x in c['clauses'] if x[0] == 'requires']
@@ -313,8 +346,19 @@ def gen_harness(c, table):
     for i, (_, e, tags, line, comment) in enumerate(ens, 1):
         cid = '%s.ensures.%d' % (name, i)
         table.append(dict(id=cid, kind='ensures', function=name, tags=tags, text=e, line=line, comment=comment))
-        e2 = sub_fresh(sub_olds(e, ot), 'POST').replace('__CPROVER_return_value', '__ret')
-        L.append('  __CPROVER_assert(%s, "%s %s: %s");' % (e2, ''.join('[%s]' % t for t in tags), cid, cstr(e)))
+        e2 = sub_ptreq(sub_fresh(sub_olds(e, ot), 'POST').replace('__CPROVER_return_value', '__ret'))
+        tg = ''.join('[%s]' % t for t in tags)
+        e = e[:300]
+        kfs = [k for k in KNOWN if k.get('clause') == 'ensures.%d' % i]
+        if kfs:
+            # a recorded known finding splits the clause: outside the recorded witness class it is still
+            # claimed; inside it the failure is expected and reported as KNOWN-FINDING
+            W = ' || '.join('(%s)' % k['witness'] for k in kfs)
+            L.append('  __CPROVER_assert((!(%s)) ==> (%s), "%s %s: %s");' % (W, e2, tg, cid, cstr(e)))
+            for k in kfs:
+                L.append('  __CPROVER_assert((%s) ==> (%s), "%s %s[%s]: %s");' % (k['witness'], e2, tg, cid, k['id'], cstr(e)))
+        else:
+            L.append('  __CPROVER_assert(%s, "%s %s: %s");' % (e2, tg, cid, cstr(e)))
     L.append('}')
     return '\n'.join(L)
 
@@ -349,8 +393,11 @@ def main():
     ap.add_argument('--enforce', required=True)
     ap.add_argument('--replace', action='append', default=[])
     ap.add_argument('--out', required=True)
+    ap.add_argument('--known')
     ap.add_argument('files', nargs='+')
     a = ap.parse_args()
+    if a.known:
+        KNOWN.extend(json.load(open(a.known)))
     os.makedirs(a.out, exist_ok=True)
     table, seen = [], set()
     for f in a.files:
